@@ -230,6 +230,15 @@ def prop_registry(sh, case):
                         break
             else:
                 observed = check_result(label, r[1], r[2], dcontext, fails)
+            if kind == 'function' and isinstance(ov, type) and issubclass(ov, query_compile.EvalAggregator) and coltypes:
+                # an aggregate over a group holding only NULLs, and over no row at all
+                for special in ([tuple(None for _ in coltypes)] * 2, []):
+                    conn.tables['v'] = htables.HTable('v', [(f'c{i}', t) for i, t in enumerate(coltypes)], special)
+                    r2 = execute(conn, stmt)
+                    if r2[0] == 'ok':
+                        check_result(f'{label} over {len(special)} all-NULL rows', r2[1], r2[2], dcontext, fails)
+                    elif r2[0] == 'raised':
+                        fails.append((f'accepted-query-raises:{type(r2[1]).__name__}:{kind} {name}', f'{label} over NULLs: {r2[1]!r}'))
             if not observed:
                 unobserved.append(label)
             sh.record(label, observed, {'overload': label, 'announced': types.name(r[1][0].datatype) if r[0] == 'ok' else None}
@@ -257,6 +266,33 @@ def prop_coalesce(sh, case):
             elif r[0] == 'raised':
                 fails.append((f'accepted-query-raises:{type(r[1]).__name__}', f'{label}: {r[1]!r}'))
             sh.record(label + str(len(args)), r[0] == 'ok', None, n=len(rows))
+    return fails
+
+
+def prop_pivot(sh, case):
+    """Whatever PIVOT BY the compiler accepts must execute type-safely and announce truthful datatypes."""
+    fails = []
+    conn, dcontext = base_connection()
+    rows = [('a', 1, D('1.5'), POOLS[inventory.Inventory][1], {'k': 1}), ('b', 2, None, POOLS[inventory.Inventory][2], {}),
+            ('a', 2, D('2'), None, None), ('b', 1, D('0'), POOLS[inventory.Inventory][0], {'x': 'y'}),
+            (None, 1, D('3'), None, None), ('a', None, None, None, None), (None, None, D('4'), None, {})]
+    conn.tables['v'] = htables.HTable('v', [('k1', str), ('k2', int), ('x', D), ('inv', inventory.Inventory), ('d', dict)], rows)
+    col = A.Column
+    targets = [A.Target(col('k1'), None), A.Target(col('k2'), None), A.Target(A.Function('sum', [col('x')]), 's'),
+               A.Target(A.Function('first', [col('inv')]), 'fi'), A.Target(A.Function('last', [col('d')]), 'ld'),
+               A.Target(A.Function('count', [A.Asterisk()]), 'n')]
+    names = ['k1', 'k2', 's', 'fi', 'ld', 'n']
+    for i, j in itertools.permutations(range(len(targets)), 2):
+        for refs in ([i + 1, j + 1], [col(names[i]), col(names[j])]):
+            stmt = A.Select(targets, A.Table('v'), None, A.GroupBy([1, 2], None), None, A.PivotBy(refs), None, None)
+            r = execute(conn, stmt)
+            label = f'PIVOT BY {names[i]}, {names[j]}'
+            if r[0] == 'ok':
+                check_result(label, r[1], r[2], dcontext, fails)
+            elif r[0] == 'raised':
+                what = 'unorderable-first-column' if names[i] in ('fi', 'ld') else 'scalar-keys'
+                fails.append((f'accepted-pivot-raises:{type(r[1]).__name__}:{what}', f'{label}: {r[1]!r}'))
+            sh.record(label + str(type(refs[0])), r[0] == 'ok', None)
     return fails
 
 
@@ -329,7 +365,7 @@ def prop_ledger(sh, case):
     return fails
 
 
-PARTS = {'registry': prop_registry, 'coalesce': prop_coalesce, 'ledger': prop_ledger}
+PARTS = {'registry': prop_registry, 'coalesce': prop_coalesce, 'pivot': prop_pivot, 'ledger': prop_ledger}
 
 
 def run(sh):
@@ -339,4 +375,7 @@ def run(sh):
     if sh.index == 1 % sh.n:
         for sig, detail in prop_coalesce(sh, None):
             sh.fail(sig, detail, None, 'coalesce')
+    if sh.index == 2 % sh.n:
+        for sig, detail in prop_pivot(sh, None):
+            sh.fail(sig, detail, None, 'pivot')
     sh.search('ledger', ledger_case(), prop_ledger, quick=800, thorough=30000)
